@@ -136,6 +136,9 @@ def _build(entries, fresh=False):
         for n, t, tg, p in entries))
 
 
+_LAST_ID = [b"\x02" * 20]
+
+
 def impl(c):
     from swh.model import git_objects
     from swh.model.model import Directory
@@ -163,9 +166,17 @@ def impl(c):
         with warnings.catch_warnings():
             warnings.simplefilter("ignore")
             # deprecated route: a plain dict instead of a Directory
-            res["manifest_from_dict_arg"] = git_objects.directory_git_object(
-                {"entries": [{"name": bytes.fromhex(n), "type": t, "target": bytes.fromhex(tg), "perms": p}
-                             for n, t, tg, p in c["entries"]]}).hex()
+            ents = [{"name": bytes.fromhex(n), "type": t, "target": bytes.fromhex(tg), "perms": p} for n, t, tg, p in c["entries"]]
+            res["manifest_from_dict_arg"] = git_objects.directory_git_object({"entries": ents}).hex()
+            # ... carrying an id that is not its own (one value for the whole run, the id of the previous case, its own):
+            # the id key of the dict must not decide what is formatted
+            for stale in (b"\x01" * 20, _LAST_ID[0], bytes.fromhex(res["id"]) if isinstance(res.get("id"), str) and len(res["id"]) == 40 else b""):
+                git_objects.directory_git_object({"id": stale, "entries": [dict(e) for e in ents[1:]]})   # another object seen under that id first
+                m2 = git_objects.directory_git_object({"id": stale, "entries": [dict(e) for e in ents]}).hex()
+                if m2 != res["manifest_from_dict_arg"]:
+                    res["manifest_from_dict_arg"] = "differs when the dict carries the id %s: %s" % (stale.hex(), m2[:80])
+            if isinstance(res.get("id"), str) and len(res["id"]) == 40:
+                _LAST_ID[0] = bytes.fromhex(res["id"])
     except Exception as e:
         res["manifest_from_dict_arg"] = "error:" + exc_class(e)
     try:
